@@ -15,11 +15,104 @@ Lemmas for the fragment port (Core/Text/Fragment):
 namespace QM.Frag
 open QM.Text QM.Parse
 
+/-! ### 0. Literal leaves -/
+
+/-- the text of a literal leaf (`render_literal`) -/
+inductive LitText : T → Str → Prop
+  | int (i : Int) : LitText (.int i) (intText i)
+  | bin {bs : List Nat} : (∀ b ∈ bs, b < 256) → LitText (.bin bs) (binText bs)
+
+theorem hexChar_facts : ∀ k : Fin 16, QM.hexDigit (QM.hexChar k.val) = some k.val ∧
+    isWhitespace (QM.hexChar k.val) = false ∧ QM.hexChar k.val ≠ '\x00' := by decide
+
+theorem hexText_all {p : Char → Bool} (hp : ∀ k : Fin 16, p (QM.hexChar k.val) = true) :
+    ∀ (bs : List Nat), (∀ b ∈ bs, b < 256) → (hexText bs).all p = true
+  | [], _ => rfl
+  | b :: bs, h => by
+    have hb := h b (by simp)
+    have h1 := hp ⟨b / 16, by omega⟩
+    have h2 := hp ⟨b % 16, by omega⟩
+    simp only [hexText, List.all_cons, h1, h2, Bool.true_and]
+    exact hexText_all hp bs (fun x hx => h x (by simp [hx]))
+
+theorem parseHexNat_hexText : ∀ (bs : List Nat), (∀ b ∈ bs, b < 256) → QM.parseHexNat (hexText bs) = some bs
+  | [], _ => rfl
+  | b :: bs, h => by
+    have hb := h b (by simp)
+    have h1 := (hexChar_facts ⟨b / 16, by omega⟩).1
+    have h2 := (hexChar_facts ⟨b % 16, by omega⟩).1
+    simp only [hexText, QM.parseHexNat, h1, h2, parseHexNat_hexText bs (fun x hx => h x (by simp [hx]))]
+    congr 2
+    omega
+
+theorem not_ws_of_digit {c : Char} (h : isDigit c = true) : isWhitespace c = false :=
+  not_ws_of_identBody (by simp [isIdentBody, h])
+
+theorem digits_good {ds : Str} (h : ds.all isDigit = true) (hne : ds ≠ []) : goodAtom ds = true := by
+  simp only [goodAtom, Bool.and_eq_true, Bool.not_eq_true', List.isEmpty_eq_false_iff]
+  refine ⟨hne, ?_⟩
+  simp only [List.all_eq_true, Bool.not_eq_true'] at h ⊢
+  intro x hx; exact not_ws_of_digit (h x hx)
+
+theorem digits_nul {ds : Str} (h : ds.all isDigit = true) : ds.all (· ≠ '\x00') = true := by
+  simp only [List.all_eq_true, decide_eq_true_eq] at h ⊢
+  intro x hx e
+  have := h x hx
+  rw [e] at this
+  exact absurd this (by decide)
+
+theorem lit_good {t : T} {s : Str} (h : LitText t s) : goodAtom s = true := by
+  cases h with
+  | int i =>
+    obtain ⟨h1, h2, _⟩ := natDigits_spec i.natAbs
+    unfold intText
+    split
+    · have := digits_good h1 h2
+      simp only [goodAtom, Bool.and_eq_true, Bool.not_eq_true', List.isEmpty_eq_false_iff] at this ⊢
+      exact ⟨by simp, by simp [this.2]; decide⟩
+    · exact digits_good h1 h2
+  | bin hb =>
+    have := hexText_all (p := fun c => !isWhitespace c) (fun k => by simp [(hexChar_facts k).2.1]) _ hb
+    simp only [goodAtom, binText, List.isEmpty_cons, Bool.not_false, Bool.true_and, List.all_cons, this,
+      Bool.and_true]
+    decide
+
+theorem lit_nul {t : T} {s : Str} (h : LitText t s) : s.all (· ≠ '\x00') = true := by
+  cases h with
+  | int i =>
+    obtain ⟨h1, _, _⟩ := natDigits_spec i.natAbs
+    unfold intText
+    split
+    · simp only [List.all_cons, digits_nul h1, Bool.and_true]; decide
+    · exact digits_nul h1
+  | bin hb =>
+    have := hexText_all (p := (· ≠ '\x00')) (fun k => by simp [(hexChar_facts k).2.2]) _ hb
+    simp only [binText, List.all_cons, this, Bool.and_true]
+    decide
+
+/-- a literal starts with a digit or `-` -/
+theorem lit_head {t : T} {s : Str} (h : LitText t s) :
+    ∃ c r, s = c :: r ∧ (isDigit c = true ∨ c = '-') := by
+  cases h with
+  | int i =>
+    obtain ⟨h1, h2, _⟩ := natDigits_spec i.natAbs
+    unfold intText
+    split
+    · exact ⟨'-', _, rfl, .inr rfl⟩
+    · cases hd : Parse.natDigits i.natAbs with
+      | nil => exact absurd hd h2
+      | cons c r =>
+        rw [hd] at h1
+        simp only [List.all_cons, Bool.and_eq_true] at h1
+        exact ⟨c, r, rfl, .inl h1.1⟩
+  | bin hb => exact ⟨'0', _, rfl, .inl (by decide)⟩
+
 /-! ### 1. Layouts -/
 
 mutual
 inductive LayP : T → List Piece → Prop
   | leaf {n : Str} : isIdentStr n = true → LayP (.leaf n) [.atom n]
+  | lit {t : T} {s : Str} : LitText t s → LayP t [.atom s]
   | empty {name : Option Str} : optOk isTupleNameStr name → LayP (.tup name []) [.atom (emptyText name)]
   | flat {name : Option Str} {f : F} {fs : List F} {items : List Piece} :
       optOk isTupleNameStr name → ItemsP false (f :: fs) items →
@@ -173,6 +266,14 @@ theorem printLoop_term : (t : T) → T.WF t → PrintsAs (termDoc t) (LayP t)
     intro w col i m st
     simp only [termDoc, pl_text]
     exact ⟨[.atom n], [.atom n], col + n.length, by simp, rfl, .leaf hwf⟩
+  | .int i, _ => by
+    intro w col i' m st
+    simp only [termDoc, pl_text]
+    exact ⟨[.atom (intText i)], [.atom (intText i)], col + (intText i).length, by simp, rfl, .lit (.int i)⟩
+  | .bin bs, hwf => by
+    intro w col i m st
+    simp only [termDoc, pl_text]
+    exact ⟨[.atom (binText bs)], [.atom (binText bs)], col + (binText bs).length, by simp, rfl, .lit (.bin hwf)⟩
   | .tup name [], hwf => by
     intro w col i m st
     simp only [termDoc, List.isEmpty_nil, if_true, pl_text]
@@ -261,6 +362,7 @@ mutual
 theorem layP_tidy : ∀ {t : T} {ps : List Piece}, LayP t ps →
     ∀ (b : Bool) (r : List Piece), tidyPs true r = true → tidyPs b (ps ++ r) = true
   | _, _, .leaf hn, b, r, hr => by simp [tidyPs, goodAtom_ident hn, hr]
+  | _, _, .lit hl, b, r, hr => by simp [tidyPs, lit_good hl, hr]
   | _, _, .empty hn, b, r, hr => by simp [tidyPs, good_empty hn, hr]
   | _, _, .flat hn hi, b, r, hr => by
     have h2 : goodAtom [']'] = true := by decide
@@ -297,6 +399,9 @@ theorem layP_nulFree : ∀ {t : T} {ps : List Piece}, LayP t ps → nulFree ps =
   | _, _, .leaf hn => by
     simp only [nulFree, Bool.and_eq_true]
     exact ⟨ident_nulFree hn, trivial⟩
+  | _, _, .lit hl => by
+    simp only [nulFree, Bool.and_eq_true]
+    exact ⟨lit_nul hl, trivial⟩
   | _, _, .empty hn => by
     simp only [nulFree, Bool.and_eq_true]
     exact ⟨nul_empty hn, trivial⟩
@@ -342,9 +447,24 @@ theorem post_passes_layP {t : T} {ps : List Piece} (h : LayP t ps) :
 
 /-! ### 4. The parser reads a layout back -/
 
-/-- a layout starts with `[`, a lower-case letter (identifier, field label) or an upper-case letter
-    (tuple name) -/
-def HeadOk (s : Str) : Prop := ∃ c r, s = c :: r ∧ (c = '[' ∨ isLower c = true ∨ isUpper c = true)
+/-- how a layout can start: `[`, a lower-case letter (identifier, field label), an upper-case letter
+    (tuple name), a digit or `-` (literal) -/
+def headCls (c : Char) : Bool := c == '[' || isLower c || isUpper c || isDigit c || c == '-'
+
+def HeadOk (s : Str) : Prop := ∃ c r, s = c :: r ∧ headCls c = true
+
+/-- none of the characters that matter to the white-space and separator parsers starts a layout -/
+theorem headCls_ne {c : Char} (h : headCls c = true) (d : Char) (hd : d.toNat < 45 ∨ d.toNat = 47) :
+    c ≠ d := by
+  intro e; subst e
+  simp only [headCls, Bool.or_eq_true, beq_iff_eq, isLower, isUpper, isDigit, Bool.and_eq_true,
+    decide_eq_true_eq] at h
+  rcases h with (((h | h) | h) | h) | h
+  · subst h; revert hd; decide
+  · omega
+  · omega
+  · omega
+  · subst h; revert hd; decide
 
 theorem HeadOk.append {s : Str} (h : HeadOk s) (x : Str) : HeadOk (s ++ x) := by
   obtain ⟨c, r, rfl, hc⟩ := h
@@ -355,28 +475,34 @@ theorem headOk_ident {n : Str} (h : isIdentStr n = true) : HeadOk n := by
   | nil => simp [isIdentStr] at h
   | cons c r =>
     simp only [isIdentStr, Bool.and_eq_true] at h
-    exact ⟨c, r, rfl, .inr (.inl h.1)⟩
+    exact ⟨c, r, rfl, by simp [headCls, h.1]⟩
 
 theorem headOk_tupleName {n : Str} (h : isTupleNameStr n = true) : HeadOk n := by
   cases n with
   | nil => simp [isTupleNameStr] at h
   | cons c r =>
     simp only [isTupleNameStr, Bool.and_eq_true] at h
-    exact ⟨c, r, rfl, .inr (.inr h.1)⟩
+    exact ⟨c, r, rfl, by simp [headCls, h.1]⟩
 
 theorem headOk_open {name : Option Str} (hn : optOk isTupleNameStr name) (x : Str) :
     HeadOk (openText name ++ x) := by
   cases name with
-  | none => exact ⟨'[', x, rfl, .inl rfl⟩
+  | none => exact ⟨'[', x, rfl, by decide⟩
   | some n => simpa [openText] using (headOk_tupleName hn).append ('[' :: x)
 
 theorem layP_head {t : T} {ps : List Piece} (h : LayP t ps) : HeadOk (renderPieces ps) := by
   cases h with
   | leaf hn => simpa [renderPieces, Piece.render] using headOk_ident hn
+  | lit hl =>
+    obtain ⟨c, r, rfl, hc⟩ := lit_head hl
+    refine ⟨c, r ++ [], by simp [renderPieces, Piece.render], ?_⟩
+    rcases hc with hc | rfl
+    · simp [headCls, hc]
+    · decide
   | empty hn =>
     rename_i name
     cases name with
-    | none => exact ⟨'[', _, rfl, .inl rfl⟩
+    | none => exact ⟨'[', _, rfl, by decide⟩
     | some n => simpa [renderPieces, Piece.render, emptyText] using headOk_tupleName hn
   | flat hn _ => exact headOk_open hn _
   | brk k1 k2 hn _ => exact headOk_open hn _
@@ -401,20 +527,12 @@ theorem headAll_cons (f : Char → Bool) (c : Char) (r : Str) : headAll f (c :: 
 theorem headOk_stop {s : Str} (h : HeadOk s) :
     headAll (fun c => !isMultispace c && c != '/') s = true := by
   obtain ⟨c, r, rfl, hc⟩ := h
-  rcases hc with rfl | hc | hc
-  · rw [headAll_cons]; decide
-  · have h1 := lower_ne hc ' ' (by decide)
-    have h2 := lower_ne hc '\t' (by decide)
-    have h3 := lower_ne hc '\r' (by decide)
-    have h4 := lower_ne hc '\n' (by decide)
-    have h5 := lower_ne hc '/' (by decide)
-    simp [headAll, isMultispace, h1, h2, h3, h4, h5]
-  · have h1 := upper_ne hc ' ' (by decide)
-    have h2 := upper_ne hc '\t' (by decide)
-    have h3 := upper_ne hc '\r' (by decide)
-    have h4 := upper_ne hc '\n' (by decide)
-    have h5 := upper_ne hc '/' (by decide)
-    simp [headAll, isMultispace, h1, h2, h3, h4, h5]
+  have h1 := headCls_ne hc ' ' (by decide)
+  have h2 := headCls_ne hc '\t' (by decide)
+  have h3 := headCls_ne hc '\r' (by decide)
+  have h4 := headCls_ne hc '\n' (by decide)
+  have h5 := headCls_ne hc '/' (by decide)
+  simp [headAll, isMultispace, h1, h2, h3, h4, h5]
 
 theorem headOk_not_ms {s : Str} (h : HeadOk s) : s.dropWhile isMultispace = s := by
   have := headOk_stop h
@@ -450,10 +568,13 @@ theorem headOk_close (rest : Str) : headAll (fun c => !isMultispace c && c != '/
 theorem headOk_comma (rest : Str) : headAll (fun c => !isMultispace c && c != '/') (',' :: rest) = true := by
   rw [headAll_cons]; decide
 
-/-- What may follow a term of the fragment: nothing that continues a name (`IdStop`), opens a field
-    list (`[`), makes the term a field label (`:`) or — after white space — a partial pattern (`(`). -/
+/-- What may follow a term of the fragment: nothing that continues a name or a number (`IdStop`: no
+    identifier character), opens a field list (`[`), makes the term a field label (`:`), a decimal or
+    a fraction (`.`, `/`), continues a run of hex digits, or — after white space — starts a partial
+    pattern (`(`). -/
 def Stop (rest : Str) : Prop :=
-  IdStop rest ∧ headAll (fun c => c != '[' && c != ':') rest = true ∧
+  IdStop rest ∧
+    headAll (fun c => c != '[' && c != ':' && c != '.' && c != '/' && !isHexDigit c) rest = true ∧
     headAll (fun c => c != '(') (rest.dropWhile isMultispace) = true
 
 theorem stop_comma (r : Str) : Stop (',' :: r) := by
@@ -469,6 +590,20 @@ theorem stop_close (r : Str) : Stop (']' :: r) := by
 theorem stop_nil : Stop [] := ⟨trivial, rfl, rfl⟩
 theorem stop_nl : Stop ['\n'] := by
   refine ⟨by simp [IdStop]; decide, by rw [headAll_cons]; decide, by decide⟩
+
+theorem Stop.not {rest : Str} (h : Stop rest) (d : Char)
+    (hd : (d != '[' && d != ':' && d != '.' && d != '/' && !isHexDigit d) = false) :
+    headAll (fun c => c != d) rest = true := by
+  have := h.2.1
+  cases rest with
+  | nil => rfl
+  | cons c t =>
+    rw [headAll_cons] at this ⊢
+    simp only [bne_iff_ne, ne_eq]
+    intro e
+    subst e
+    rw [hd] at this
+    exact Bool.noConfusion this
 
 theorem Stop.noBody {rest : Str} (h : Stop rest) : ∀ c t, rest = c :: t → isIdentBody c = false := by
   intro c t e; subst e; exact h.1.1
@@ -491,9 +626,104 @@ theorem tupleP_sound {field : P F} (h : Sound field) : Sound (tupleP field) :=
     (Sound.alt (Sound.pmap (bracketsP_sound h))
       (Sound.bind Sound.tupleName fun _ => Sound.pmap (Sound.peekNot _)))
 
+theorem sound_digit1 : Sound digit1 := by
+  intro i
+  unfold digit1
+  simp only []
+  split
+  · exact List.suffix_refl _
+  · exact List.dropWhile_suffix _
+
+theorem sound_integerP : Sound integerP :=
+  Sound.bind (Sound.opt (Sound.pchar _)) fun _ => Sound.pmap sound_digit1
+
+theorem sound_binaryP : Sound binaryP := by
+  refine Sound.seq (Sound.ptag _) ?_
+  intro i
+  simp only []
+  split
+  · exact List.dropWhile_suffix _
+  · exact List.suffix_refl _
+
+theorem sound_literalP : Sound literalP :=
+  Sound.alt (Sound.pmap sound_binaryP) (Sound.pmap sound_integerP)
+
 theorem termP_sound : ∀ n, Sound (termP n)
   | 0 => fun _ => trivial
-  | n + 1 => Sound.alt (tupleP_sound (fieldP_sound (termP_sound n))) (Sound.pmap Sound.identifier)
+  | n + 1 =>
+    Sound.alt sound_literalP
+      (Sound.alt (tupleP_sound (fieldP_sound (termP_sound n))) (Sound.pmap Sound.identifier))
+
+/-- `literal` fails on a text that starts with neither a digit nor `-` -/
+theorem literalP_fails {s : Str} (h : headAll (fun c => !isDigit c && c != '-') s = true) :
+    Fails literalP s := by
+  have h0 : headAll (· ≠ '0') s = true := by
+    cases s with
+    | nil => rfl
+    | cons c r =>
+      simp only [headAll_cons, Bool.and_eq_true, Bool.not_eq_true', bne_iff_ne, ne_eq] at h
+      simp only [headAll_cons, decide_eq_true_eq]
+      intro e; subst e; exact absurd h.1 (by decide)
+  have hm : Fails (pchar '-') s := by
+    cases s with
+    | nil => exact pchar_nil '-'
+    | cons c r =>
+      simp only [headAll_cons, Bool.and_eq_true, Bool.not_eq_true', bne_iff_ne, ne_eq] at h
+      exact pchar_ne h.2 r
+  have hd : Fails digit1 s := by
+    refine ⟨s, .digit, ?_⟩
+    cases s with
+    | nil => simp [digit1]
+    | cons c r =>
+      simp only [headAll_cons, Bool.and_eq_true, Bool.not_eq_true'] at h
+      simp [digit1, h.1]
+  refine Fails.alt (Fails.pmap (Fails.seq (ptag_fails_of_head rfl h0))) (Fails.pmap ?_)
+  unfold integerP
+  exact Fails.bind_ok (opt_of_fails hm) (Fails.pmap hd)
+
+/-- `primary` on a text that is not a literal -/
+theorem termP_notLit {n : Nat} {s : Str} (h : headAll (fun c => !isDigit c && c != '-') s = true) :
+    termP (n + 1) s = alt (tupleP (fieldP (termP n))) (pmap identifier T.leaf) s := by
+  show alt literalP _ s = _
+  exact alt_of_fails (literalP_fails h)
+
+theorem notLit_lower {c : Char} (h : isLower c = true) (r : Str) :
+    headAll (fun c => !isDigit c && c != '-') (c :: r) = true := by
+  have := lower_ne h '-' (by decide)
+  simp only [isLower, Bool.and_eq_true, decide_eq_true_eq] at h
+  simp only [headAll_cons, isDigit, Bool.and_eq_true, Bool.not_eq_true', Bool.and_eq_false_iff,
+    decide_eq_false_iff_not, bne_iff_ne, ne_eq]
+  exact ⟨by omega, this⟩
+
+theorem notLit_upper {c : Char} (h : isUpper c = true) (r : Str) :
+    headAll (fun c => !isDigit c && c != '-') (c :: r) = true := by
+  have := upper_ne h '-' (by decide)
+  simp only [isUpper, Bool.and_eq_true, decide_eq_true_eq] at h
+  simp only [headAll_cons, isDigit, Bool.and_eq_true, Bool.not_eq_true', Bool.and_eq_false_iff,
+    decide_eq_false_iff_not, bne_iff_ne, ne_eq]
+  exact ⟨by omega, this⟩
+
+theorem notLit_ident {n : Str} (h : isIdentStr n = true) (x : Str) :
+    headAll (fun c => !isDigit c && c != '-') (n ++ x) = true := by
+  cases n with
+  | nil => simp [isIdentStr] at h
+  | cons c r =>
+    simp only [isIdentStr, Bool.and_eq_true] at h
+    exact notLit_lower h.1 _
+
+theorem notLit_tupleName {n : Str} (h : isTupleNameStr n = true) (x : Str) :
+    headAll (fun c => !isDigit c && c != '-') (n ++ x) = true := by
+  cases n with
+  | nil => simp [isTupleNameStr] at h
+  | cons c r =>
+    simp only [isTupleNameStr, Bool.and_eq_true] at h
+    exact notLit_upper h.1 _
+
+theorem notLit_open {name : Option Str} (hn : optOk isTupleNameStr name) (x : Str) :
+    headAll (fun c => !isDigit c && c != '-') (openText name ++ x) = true := by
+  cases name with
+  | none => simp only [openText, Option.getD_none, List.nil_append, List.cons_append, headAll_cons]; decide
+  | some n => simpa [openText] using notLit_tupleName hn ('[' :: x)
 
 theorem bracketsP_fails {field : P F} {s : Str} (h : headAll (· ≠ '[') s = true) :
     Fails (bracketsP field) s :=
@@ -507,8 +737,13 @@ theorem tupleP_fails {field : P F} {s : Str} (h1 : headAll (· ≠ '[') s = true
 
 /-- the term parser fails on a closing bracket -/
 theorem termP_fails_close (n : Nat) (rest : Str) : Fails (termP (n + 1)) (']' :: rest) :=
-  Fails.alt (tupleP_fails (by rw [headAll_cons]; decide) (by rw [headAll_cons]; decide))
-    (Fails.pmap (identifier_fails_of_head (by rw [headAll_cons]; decide)))
+  Fails.alt (literalP_fails (by rw [headAll_cons]; decide))
+    (Fails.alt (tupleP_fails (by rw [headAll_cons]; decide) (by rw [headAll_cons]; decide))
+      (Fails.pmap (identifier_fails_of_head (by rw [headAll_cons]; decide))))
+
+theorem termP_fails_nil (n : Nat) : Fails (termP (n + 1)) [] :=
+  Fails.alt (literalP_fails rfl)
+    (Fails.alt (tupleP_fails rfl rfl) (Fails.pmap (identifier_fails_of_head rfl)))
 
 theorem fieldP_fails_close (n : Nat) (rest : Str) : Fails (fieldP (termP (n + 1))) (']' :: rest) :=
   Fails.alt (Fails.bind (identifier_fails_of_head (by rw [headAll_cons]; decide)))
@@ -585,10 +820,10 @@ theorem tupleP_bare {field : P F} {n rest : Str} (hn : isTupleNameStr n = true) 
       have := upper_ne hn.1 '[' (by decide)
       simp [headAll, this]
   have hb : headAll (· ≠ '[') rest = true := by
-    have := hs.2.1
+    have := hs.not '[' (by decide)
     cases rest with
     | nil => rfl
-    | cons c t => simp only [headAll_cons, Bool.and_eq_true, bne_iff_ne, ne_eq] at this; simp [headAll, this.1]
+    | cons c t => simpa [headAll] using this
   rw [alt_of_fails (Fails.bind_ok hname (Fails.pmap (bracketsP_fails hb)))]
   rw [alt_of_fails (Fails.pmap (bracketsP_fails hup))]
   rw [bind_ok hname]
@@ -598,6 +833,108 @@ theorem tupleP_bare {field : P F} {n rest : Str} (hn : isTupleNameStr n = true) 
   cases hd : rest.dropWhile isMultispace with
   | nil => rfl
   | cons c t => rw [hd, headAll_cons] at this; simpa [headAll] using this
+
+theorem Stop.noDigit {rest : Str} (h : Stop rest) : ∀ c t, rest = c :: t → isDigit c = false := by
+  intro c t e
+  have := h.noBody c t e
+  simp only [isIdentBody, Bool.or_eq_false_iff] at this
+  exact this.1.2
+
+theorem Stop.noHex {rest : Str} (h : Stop rest) : ∀ c t, rest = c :: t → isHexDigit c = false := by
+  intro c t e; subst e
+  have := h.2.1
+  simp only [headAll_cons, Bool.and_eq_true, Bool.not_eq_true'] at this
+  exact this.2
+
+/-- `tag("0x")` fails on a run of digits followed by something that is not an `x` -/
+theorem ptag0x_fails_digits {ds rest : Str} (h : ds.all isDigit = true) (hne : ds ≠ [])
+    (hr : headAll (· ≠ 'x') rest = true) : Fails (ptag ['0', 'x']) (ds ++ rest) := by
+  refine ⟨ds ++ rest, .tag, ?_⟩
+  cases ds with
+  | nil => exact absurd rfl hne
+  | cons d ds =>
+    cases ds with
+    | nil =>
+      cases rest with
+      | nil => simp [ptag, isPrefix]
+      | cons c t =>
+        have : ¬ 'x' = c := by simp [headAll] at hr; exact fun e => hr e.symm
+        simp [ptag, isPrefix, this]
+    | cons d2 ds =>
+      simp only [List.all_cons, Bool.and_eq_true] at h
+      have : ¬ 'x' = d2 := by intro e; subst e; exact absurd h.2.1 (by decide)
+      simp [ptag, isPrefix, this]
+
+/-- `literal` reads the text of a literal leaf back -/
+theorem literalP_lit {t : T} {s rest : Str} (h : LitText t s) (hs : Stop rest) :
+    literalP (s ++ rest) = .ok t rest := by
+  unfold literalP
+  cases h with
+  | int i =>
+    obtain ⟨h1, h2, h3⟩ := natDigits_spec i.natAbs
+    have hx : headAll (· ≠ 'x') rest = true := by
+      cases rest with
+      | nil => rfl
+      | cons c t =>
+        have := hs.noBody c t rfl
+        simp only [headAll_cons, decide_eq_true_eq]
+        intro e; subst e; exact absurd this (by decide)
+    have htw := takeWhile_append_stop h1 hs.noDigit
+    have hdig : digit1 (Parse.natDigits i.natAbs ++ rest) = .ok (Parse.natDigits i.natAbs) rest := by
+      have hne : (Parse.natDigits i.natAbs).isEmpty = false := by
+        cases hd : Parse.natDigits i.natAbs with
+        | nil => exact absurd hd h2
+        | cons c r => rfl
+      simp [digit1, htw.1, htw.2, hne]
+    unfold intText
+    split
+    · rename_i hneg
+      have hbin : Fails binaryP ('-' :: Parse.natDigits i.natAbs ++ rest) := by
+        unfold binaryP
+        exact Fails.seq (ptag_fails_of_head rfl (by rw [List.cons_append, headAll_cons]; decide))
+      rw [alt_of_fails (Fails.pmap hbin)]
+      refine pmap_ok ?_
+      unfold integerP
+      rw [List.cons_append, bind_ok (opt_ok (pchar_self '-' _)), pmap_ok hdig]
+      simp only [Option.isSome_some, if_true, h3]
+      congr 1
+      omega
+    · rename_i hpos
+      have hbin : Fails binaryP (Parse.natDigits i.natAbs ++ rest) := by
+        unfold binaryP
+        exact Fails.seq (ptag0x_fails_digits h1 h2 hx)
+      rw [alt_of_fails (Fails.pmap hbin)]
+      refine pmap_ok ?_
+      unfold integerP
+      have hm : Fails (pchar '-') (Parse.natDigits i.natAbs ++ rest) := by
+        cases hd : Parse.natDigits i.natAbs with
+        | nil => exact absurd hd h2
+        | cons c r =>
+          rw [hd] at h1
+          simp only [List.all_cons, Bool.and_eq_true] at h1
+          exact pchar_ne (by intro e; subst e; exact absurd h1.1 (by decide)) _
+      rw [bind_ok (opt_of_fails hm), pmap_ok hdig]
+      simp only [Option.isSome_none, Bool.false_eq_true, if_false, h3]
+      congr 1
+      omega
+  | bin hb =>
+    rename_i bs
+    refine alt_of_ok (pmap_ok ?_)
+    unfold binaryP
+    have hall := hexText_all (p := isHexDigit) (fun k => by simp [isHexDigit, (hexChar_facts k).1]) _ hb
+    have htw := takeWhile_append_stop hall hs.noHex
+    rw [show binText bs ++ rest = ['0', 'x'] ++ (hexText bs ++ rest) from rfl, seq_ok (ptag_append _ _)]
+    simp only [htw.1, htw.2, parseHexNat_hexText bs hb]
+
+theorem lit_ident_fails {t : T} {s : Str} (h : LitText t s) (x : Str) : Fails identifier (s ++ x) := by
+  obtain ⟨c, r, rfl, hc⟩ := lit_head h
+  refine identifier_fails_of_head ?_
+  rw [List.cons_append, headAll_cons]
+  rcases hc with hc | rfl
+  · simp only [isDigit, isLower, Bool.and_eq_true, decide_eq_true_eq] at hc ⊢
+    simp only [Bool.not_eq_true', Bool.and_eq_false_iff, decide_eq_false_iff_not]
+    omega
+  · decide
 
 /-- what `items_lay` provides: the first item, then the loop of `separated_list0` over the others -/
 def ItemsRead (n : Nat) (fs : List F) (s rest : Str) : Prop :=
@@ -609,12 +946,10 @@ theorem namedAlt_fails {term : P T} {t : T} {ps : List Piece} {rest : Str} (h : 
     Fails (bind identifier fun n => seq (pchar ':') (seq ws1 (pmap term (F.mk (some n)))))
       (renderPieces ps ++ rest) := by
   have hcolon : Fails (pchar ':') rest := by
-    have := hs.2.1
+    have := hs.not ':' (by decide)
     cases rest with
     | nil => exact pchar_nil ':'
-    | cons c t =>
-      simp only [headAll_cons, Bool.and_eq_true, bne_iff_ne, ne_eq] at this
-      exact pchar_ne this.2 t
+    | cons c t => exact pchar_ne (by simpa [headAll] using this) t
   have hup : ∀ {n : Str} (x : Str), isTupleNameStr n = true → Fails identifier (n ++ x) := by
     intro n x hn
     cases n with
@@ -636,6 +971,9 @@ theorem namedAlt_fails {term : P T} {t : T} {ps : List Piece} {rest : Str} (h : 
   | leaf hn =>
     simp only [renderPieces, Piece.render, List.append_nil]
     exact Fails.bind_ok (identifier_append hn hs.1) (Fails.seq hcolon)
+  | lit hl =>
+    simp only [renderPieces, Piece.render, List.append_nil]
+    exact Fails.bind (lit_ident_fails hl rest)
   | empty hn =>
     rename_i name
     cases name with
@@ -668,8 +1006,7 @@ theorem termP_lay : ∀ {t : T} {ps : List Piece}, LayP t ps → ∀ (n : Nat) (
     | zero => omega
     | succ n =>
       simp only [renderPieces, Piece.render, List.append_nil]
-      unfold termP
-      rw [alt_of_fails]
+      rw [termP_notLit (notLit_ident hn rest), alt_of_fails]
       · exact pmap_ok (identifier_append hn hstop.1)
       · cases name with
         | nil => simp [isIdentStr] at hn
@@ -682,6 +1019,13 @@ theorem termP_lay : ∀ {t : T} {ps : List Piece}, LayP t ps → ∀ (n : Nat) (
             simp only [isUpper, isLower, Bool.and_eq_true, decide_eq_true_eq] at this ⊢
             simp only [Bool.and_eq_false_iff, decide_eq_false_iff_not]
             omega
+  | _, _, .lit hl, n, rest, hlen, hstop => by
+    cases n with
+    | zero => omega
+    | succ n =>
+      simp only [renderPieces, Piece.render, List.append_nil]
+      show alt literalP _ _ = _
+      exact alt_of_ok (literalP_lit hl hstop)
   | _, _, .empty (name := name) hn, n, rest, hlen, hstop => by
     cases n with
     | zero => omega
@@ -689,7 +1033,7 @@ theorem termP_lay : ∀ {t : T} {ps : List Piece}, LayP t ps → ∀ (n : Nat) (
       cases name with
       | some nm =>
         simp only [renderPieces, Piece.render, emptyText, List.append_nil]
-        unfold termP
+        rw [termP_notLit (notLit_tupleName hn rest)]
         exact alt_of_ok (tupleP_bare hn hstop)
       | none =>
         cases n with
@@ -697,8 +1041,7 @@ theorem termP_lay : ∀ {t : T} {ps : List Piece}, LayP t ps → ∀ (n : Nat) (
         | succ n =>
           have hs : renderPieces [.atom (emptyText none)] ++ rest = openText none ++ (']' :: rest) := by
             simp [renderPieces, Piece.render, emptyText, openText]
-          rw [hs]
-          unfold termP
+          rw [hs, termP_notLit (notLit_open (name := none) trivial _)]
           refine alt_of_ok (tupleP_open (name := none) trivial
             (bracketsP_ok (o := none) (wsc_of_head (headOk_close rest))
               (sepList0_of_fails (fieldP_fails_close n rest)) (.inl ?_)))
@@ -716,7 +1059,7 @@ theorem termP_lay : ∀ {t : T} {ps : List Piece}, LayP t ps → ∀ (n : Nat) (
       rw [hs]
       obtain ⟨f', fs', r1, heq, hf, ht⟩ := items_lay hi n (']' :: rest) hl (stop_close rest)
         (sepTail_of_fails (commaWsc_fails_close rest))
-      unfold termP
+      rw [termP_notLit (notLit_open hn _)]
       refine alt_of_ok (tupleP_open hn (bracketsP_ok (o := none) (wsc_headOk ((itemsP_head hi).append _))
         (by rw [heq]; exact sepList0_cons hf ht) (.inl ?_)))
       exact opt_of_fails (Fails.seq_ok (wsc_of_head (headOk_close rest)) (pchar_ne (by decide) rest))
@@ -741,7 +1084,7 @@ theorem termP_lay : ∀ {t : T} {ps : List Piece}, LayP t ps → ∀ (n : Nat) (
             .ok [] (',' :: '\n' :: (List.replicate k2 ' ' ++ ']' :: rest)) :=
           sepTail_item_fails (commaWsc_nl_close k2 rest) (by simp; omega) (fieldP_fails_close m rest)
         obtain ⟨f', fs', r1, heq, hf, ht⟩ := items_lay hi (m + 1) _ hl (stop_comma _) hend
-        unfold termP
+        rw [termP_notLit (notLit_open hn _)]
         refine alt_of_ok (tupleP_open hn (bracketsP_ok (o := some ())
           (wsc_nl_headOk k1 ((itemsP_head hi).append _))
           (by rw [heq]; exact sepList0_cons hf ht)
